@@ -208,6 +208,21 @@ def rule_cases():
     add('subselect-as-scalar', 'SELECT (SELECT uid FROM #u) FROM #m')
     add('subselect-as-scalar', 'SELECT i + (SELECT max(w) FROM #u) FROM #m')
     add('subselect-as-scalar', 'SELECT i FROM #m WHERE i = (SELECT max(w) FROM #u)')
+    add('subselect-as-scalar', 'SELECT i FROM #m WHERE (SELECT b FROM #m)')
+    add('subselect-as-scalar', 'SELECT i FROM #m ORDER BY (SELECT uid FROM #u)')
+    add('subselect-as-scalar', 'SELECT count(*) FROM #m GROUP BY (SELECT uid FROM #u)')
+    add('subselect-as-scalar', 'SELECT length((SELECT s FROM #m)) FROM #m')
+    add('subselect-as-scalar', 'SELECT (SELECT uid FROM #u) IN (1, 2) FROM #m')
+    add('subselect-as-scalar', 'SELECT i FROM (SELECT i FROM #m) WHERE i IN (SELECT uid FROM #u WHERE (SELECT 1))')
+    add('subselect-as-scalar', 'SELECT i FROM (SELECT 1 FROM #u) > 0')
+    add('subselect-as-scalar', 'PRINT FROM (SELECT i FROM #m)')
+    add('subselect-as-scalar', 'BALANCES FROM (SELECT i FROM #m)')
+    add('subselect-as-scalar', 'JOURNAL FROM (SELECT i FROM #m)')
+    # accepted-or-rejected, never another exception (and if accepted, it runs): PIVOT BY inside a sub-select
+    add('clean:pivot-subquery', 'SELECT * FROM (SELECT s, t, sum(i) AS x FROM #m GROUP BY 1, 2 PIVOT BY 1, 2)')
+    add('clean:pivot-subquery', 'SELECT i FROM #m WHERE i IN (SELECT s, t, sum(i) AS x FROM #m GROUP BY 1, 2 PIVOT BY 1, 2)')
+    add('clean:pivot-subquery', 'SELECT i NOT IN (SELECT s, t, sum(i) FROM #m GROUP BY s, t PIVOT BY s, t) FROM #m')
+    add('clean:nested-subquery', 'SELECT a FROM (SELECT i AS a FROM #m) WHERE a IN (SELECT w FROM (SELECT w FROM #u))')
     add('open-after-close', 'SELECT i FROM OPEN ON 2020-02-01 CLOSE ON 2020-01-01')
     add('open-after-close', 'SELECT i FROM b OPEN ON 2020-02-01 CLOSE ON 2020-01-31 CLEAR')
     add('open-after-close', 'BALANCES FROM OPEN ON 2021-01-01 CLOSE ON 2020-12-31')
@@ -307,7 +322,17 @@ def prop_rules(sh, case):
     for conn, (rule, text, params) in cases:
         shown = text if len(text) < 120 else text[:60] + '...' + text[-20:]
         outcome, exc = attempt(conn, text, params)
-        if outcome == 'accepted':
+        if rule.startswith('clean:'):
+            if outcome == 'accepted':
+                try:
+                    conn.execute(text, params).fetchall()
+                except beanquery.Error:
+                    pass
+                except Exception as e:  # noqa: BLE001
+                    outcome, exc = 'raised', e
+            if outcome == 'raised':
+                fails.append((exc_sig(exc, f'rules:{rule}'), f'{shown!r} {params!r}: {exc!r}'[:500]))
+        elif outcome == 'accepted':
             fails.append((f'rules:{rule}:accepted', f'{shown!r} {params!r}'))
         elif outcome == 'raised':
             fails.append((root_cause(exc, exc_sig(exc, f'rules:{rule}')), f'{shown!r} {params!r}: {exc!r}'[:500]))
